@@ -455,12 +455,24 @@ func ewRun(c *core.Ctx, sp ewSpec) *ewObs {
 		if sp.Mode == "reuseA-same" {
 			opts = append(opts, tensor.AsSameType())
 		}
-	case "reuseB":
+	case "reuseB", "reuseB-same":
 		if o.B == nil {
 			o.precond = "no-second-tensor"
 			return o
 		}
 		opts = append(opts, tensor.WithReuse(o.B.op.D))
+		if sp.Mode == "reuseB-same" {
+			opts = append(opts, tensor.AsSameType())
+		}
+	case "reuse-unfit":
+		// a comparison without AsSameType delivers bools: a destination of the operands' (non-bool) element type cannot hold them
+		o.D, pre = ewBuild(c, sp.T, sp.Shape, sp.Dest, gen.Canary(sp.T, n, 99), sp.Engine, nil)
+		if pre != "" {
+			o.precond = pre
+			return o
+		}
+		o.destInit = o.D.op.M
+		opts = append(opts, tensor.WithReuse(o.D.op.D))
 	}
 	_ = explicitDest
 	for _, t := range []*ewTensorObs{o.A, o.B, o.D} {
@@ -762,17 +774,32 @@ func ewJudge(c *core.Ctx, o *ewObs, pol ewPolicy) bool {
 	switch sp.Mode {
 	case "unsafe", "reuseA", "reuseA-same":
 		dest, destName = o.A, "a"
-	case "reuseB":
+	case "reuseB", "reuseB-same":
 		dest, destName = o.B, "b"
-	case "reuse", "incr", "reuse-bool", "reuse-same":
+	case "reuse", "incr", "reuse-bool", "reuse-same", "reuse-unfit":
 		dest, destName = o.D, "dest"
 	}
 	destLay := sp.Dest
 	switch sp.Mode {
 	case "reuseA", "reuseA-same":
 		destLay = sp.LayA
-	case "reuseB":
+	case "reuseB", "reuseB-same":
 		destLay = sp.LayB
+	}
+	if sp.Mode == "reuse-unfit" {
+		// the only acceptable outcome is a refusal that leaves everything as it was
+		for name, t := range map[string]*ewTensorObs{"a": o.A, "b": o.B, "dest": o.D} {
+			if t != nil && !t.untouched() {
+				viol("unfit-destination-"+name+"-changed", "a refusal that writes nothing", fmt.Sprint(t.changed[:min(len(t.changed), 6)], " ", t.metaDif))
+				return true
+			}
+		}
+		if !o.panicked && o.err == nil {
+			viol("unfit-destination-accepted", "refused (bools do not fit the destination's element type)", "a result")
+			return true
+		}
+		c.Refused("unfit-destination:" + sp.Op)
+		return true
 	}
 	// frame: every tensor other than the destination is bit-identical, and nothing outside any tensor's element set changed
 	for name, t := range map[string]*ewTensorObs{"a": o.A, "b": o.B, "dest": o.D} {
